@@ -6,6 +6,7 @@ import (
 	_ "crypto/sha1"
 	_ "crypto/sha256"
 	"crypto/sha512"
+	_ "golang.org/x/crypto/sha3" // links SHA3-*: SHA3-384 has the same output size as SHA-384
 	"fmt"
 	"math"
 
@@ -49,13 +50,18 @@ func (q c17Req) want() []byte {
 	return q.digest
 }
 
+var sha3Linked bool
+
 func c17Draw(t *core.Tape, bigLog []byte) c17Req {
 	idx := []int{math.MinInt32, -1, 0, 1, 2, 3, 4, 5, math.MaxInt32, 0, 1, 2, 3, 0, 1, 2, 3}[t.Draw(17)]
 	if t.Bool() {
 		l := []int{0, 1, 47, 48, 49, 64, 48, 48, 48, 48}[t.Draw(10)]
 		return c17Req{index: idx, digest: t.Bytes(l)}
 	}
-	h := []crypto.Hash{crypto.SHA1, crypto.SHA256, crypto.SHA384, crypto.SHA512, crypto.Hash(0), crypto.SHA384, crypto.SHA384, crypto.SHA384}[t.Draw(8)]
+	h := []crypto.Hash{crypto.SHA1, crypto.SHA256, crypto.SHA384, crypto.SHA512, crypto.Hash(0), crypto.SHA3_384, crypto.SHA512_256, crypto.Hash(1 + t.Draw(24)), crypto.SHA384, crypto.SHA384, crypto.SHA384, crypto.SHA384}[t.Draw(12)]
+	if h == crypto.SHA3_384 && h.Available() {
+		sha3Linked = true
+	}
 	var lg []byte
 	switch t.Draw(6) {
 	case 0:
